@@ -27,7 +27,8 @@
  *   C05.read_tree.tree_wf   ret == 0 => every child hangs below root
  *                           (parent == root), the list is NULL terminated
  *                           within FD_MAXENT nodes
- * Bounded: entries per directory <= 2 (case split over count and inode types),
+ * Bounded: entries per directory <= 1 (case split over count and inode type;
+ * two entries did not finish in 170 s),
  * ancestor chain <= FD_CHAIN; allocation failures of the stubs' own objects are
  * not explored (create_node returning NULL is).
  */
